@@ -17,7 +17,24 @@ def _wrappers(cy: CyProgram):
     core = m.funcs.get("_line_dist")
     if core is None:
         raise AnalysisError("_line_dist vanished")
-    pnames = [a for a, _ in core.args]
+    # canonical role of every _line_dist parameter, from its declared type (and
+    # order among parameters of the same type) - not from its name
+    ROLE = {("int", 0): "n_time", ("int", 1): "dim", ("float", 0): "eps",
+            ("bint", 0): "black", ("bint", 1): "missing_values", ("bint", 2): "skip_main",
+            ("NODE_t1", 0): "hist", ("LAG_t2", 0): "R", ("DFIELD_t2", 0): "E",
+            ("MASK_t1", 0): "M", ("metric_type", 0): "metric",
+            ("line_type_i2J", 0): "i2J", ("line_type_ij2I", 0): "ij2I"}
+    seen = {}
+    pnames = []
+    for a, t in core.args:
+        k = t.name + (str(t.ndim) if t.kind in ("buffer", "memview") else "")
+        i = seen.get(k, 0)
+        seen[k] = i + 1
+        if (k, i) not in ROLE:
+            raise AnalysisError(f"{core.where}: _line_dist parameter `{a}` of type {k} "
+                                f"has no known role (signature changed)")
+        pnames.append(ROLE[(k, i)])
+    core_roles = dict(zip([a for a, _ in core.args], pnames))
     out = {}
     for f in m.funcs.values():
         calls = [s for s in walk(f.body) if isinstance(s, X) and s.k == "call"
@@ -193,6 +210,53 @@ def l3(run: Run, prog: Program):
                     f"its cache key {list(f.cache_attrs)}")
 
 
+def l7(run: Run, prog: Program):
+    """Sibling agreement of the three histogram methods: each consults the same
+    mode flags (storage mode, missing-value handling) before choosing a kernel.
+    A histogram that ignores a mode its siblings dispatch on cannot return "the
+    same histogram in both storage modes" / "exclude lines touching missing
+    samples"."""
+    rp = prog.classes["RecurrencePlot"]
+    flags = {}
+    for mname in HIST:
+        f = rp.methods.get(mname)
+        if f is None:
+            raise AnalysisError(f"RecurrencePlot.{mname} vanished")
+        sn = f.params[0]
+        fl = set()
+
+        def truth(e):
+            # attributes tested for truthiness (mode switches), not compared values
+            if isinstance(e, ast.Attribute) and isinstance(e.value, ast.Name) and \
+                    e.value.id == sn:
+                fl.add(e.attr)
+            elif isinstance(e, ast.UnaryOp) and isinstance(e.op, ast.Not):
+                truth(e.operand)
+            elif isinstance(e, ast.BoolOp):
+                for v in e.values:
+                    truth(v)
+        for n in ast.walk(f.node):
+            if isinstance(n, (ast.If, ast.IfExp)):
+                truth(n.test)
+        flags[mname] = (f, fl)
+    # mode flags = those consulted by a majority of the siblings
+    allf = sorted({x for _, fl in flags.values() for x in fl})
+    mode = [x for x in allf if sum(1 for _, fl in flags.values() if x in fl) * 2
+            > len(flags)]
+    for mname, (f, fl) in sorted(flags.items()):
+        missing = [x for x in mode if x not in fl]
+        run.oblige("L7", f"{f.qualname}:modes", not missing, sample={
+            "where": f.where, "consults": sorted(fl), "siblings_consult": mode})
+        if missing:
+            run.add("L7", f"{f.qualname}/missing-dispatch:" + ",".join(missing), f.where,
+                    f"{f.qualname} chooses its kernel without consulting "
+                    f"{['self.' + x for x in missing]}, which its sibling histograms "
+                    f"dispatch on: in those modes it does not compute the histogram "
+                    f"its siblings' contract promises (sequential mode: the recurrence "
+                    f"matrix it reads does not exist; missing values: lines touching "
+                    f"missing samples are counted)")
+
+
 def l4(run: Run, cy: CyProgram):
     """Scan flags of _line_dist are reset unconditionally per outer iteration."""
     f = cy.modules[TS].funcs["_line_dist"]
@@ -275,6 +339,8 @@ def check(run: Run, prog: Program, cy: CyProgram, sites):
     run.rule("L3", "the cache key of the cached histograms contains every flag the "
              "dispatch branches on")
     run.rule("L4", "per-row scan flags of _line_dist are reset unconditionally")
+    run.rule("L7", "the three histogram methods consult the same mode flags (storage "
+             "mode, missing-value handling) before choosing a kernel")
     run.rule("L5", "derived RQA measures read the histograms only")
     run.explanation = (
         "Structural necessary conditions of C08: storage-mode / missing-value / "
@@ -288,6 +354,7 @@ def check(run: Run, prog: Program, cy: CyProgram, sites):
     run.floor("L2 call sites", n, 9)
     l3(run, prog)
     l4(run, cy)
+    l7(run, prog)
     l5(run, prog)
     from .rules_c06 import p1_restricted
     run.rule("L6", "the memoised histograms are never edited in place")
